@@ -519,6 +519,9 @@ def part_services_fault(ctx):
     p.info = dict(skipped=[r["skip"] for r in res if r.get("skip")])
     seen = set()
     for r in res:
+        if r.get("stalled") and "service-stalled-after-partial-batch" not in seen:
+            seen.add("service-stalled-after-partial-batch")
+            p.violation("service-stalled-after-partial-batch", "prune-deleted-topics service: " + r["stalled"], dict(kind="service-fault", result=r))
         if r.get("skip") or not r["fault_reached"]:
             continue
         probs = []
